@@ -142,7 +142,10 @@ func barrierRun(n int, f func(i int)) (panics []string) {
 				}
 			}()
 			ready.Add(1)
-			for !goFlag.Load() {
+			for spins := 0; !goFlag.Load(); spins++ {
+				if spins&1023 == 1023 {
+					runtime.Gosched() // oversubscribed machine: let the releaser run
+				}
 			}
 			f(i)
 		}(i)
